@@ -61,6 +61,13 @@ def _one(binpath, check, lo, hi, seed, tier, timeout):
     for line in p.stdout.split('\n'):
         if line.startswith('{'):
             last = line
+    if last is None and p.returncode == 101:
+        # a Rust panic that escaped the check's own guards: the library panicked on an input of this sub-range that the check
+        # does not expect to panic (on the unchanged tree no leaf process panics). Reported as a failure of this sub-range -
+        # the input is not known, only the panic message; other exit codes (signals, out of memory) stay undecided.
+        msg = [l for l in p.stderr.split('\n') if 'panicked at' in l or l.strip()][-6:]
+        return {'status': 'FAILED', 'evaluations': 0, 'distinct': 0, 'samples': [], 'wall_s': time.time() - t0,
+                'failures': [{'key': 'panic-outside-guard:%s:%s-%s' % (check, lo, hi), 'detail': ' | '.join(msg)[-500:]}]}
     if last is None:
         return {'status': 'UNDECIDED', 'reason': 'leaf runner %s [%s,%s] gave no result (rc=%d): %s' % (check, lo, hi, p.returncode, p.stderr[-600:])}
     r = json.loads(last)
